@@ -27,9 +27,12 @@ C06_FILES = {
     "fatal_dir.c": lambda: corpus.fatal_c("fatal_dir.c", "directive"),
     "fatal_if.c": lambda: corpus.fatal_c("fatal_if.c", "if_expr"),
     "fatal_par.c": lambda: corpus.fatal_c("fatal_par.c", "paren"),
+    # same base name as clean.h, guard opened and closed but never defined (HEADER_PROT_NODEF): shows state carried
+    # from an earlier header of that name
+    "nodef@clean.h": lambda: corpus.clean_h("clean.h").replace("# define CLEAN_H\n", ""),
 }
 CLASS_OF = {"clean.c": "clean", "clean.h": "clean", "notice.c": "notice", "err.c": "err", "errdef.c": "err", "deep.c": "err",
-            "fatal_dir.c": "fatal", "fatal_if.c": "fatalif", "fatal_par.c": "fatal"}
+            "fatal_dir.c": "fatal", "fatal_if.c": "fatalif", "fatal_par.c": "fatal", "nodef@clean.h": "err"}
 
 
 def _work_hist(job):
@@ -41,12 +44,23 @@ def _work_hist(job):
             # same content under a position-specific directory so that repeated files are distinct paths
             sub = os.path.join(d, f"p{j}")
             os.makedirs(sub)
-            with open(os.path.join(sub, n), "w") as f:
+            base = n.split("@")[-1]
+            with open(os.path.join(sub, base), "w") as f:
                 f.write(C06_FILES[n]())
-            names.append(os.path.join(f"p{j}", n))
+            names.append(os.path.join(f"p{j}", base))
         res = cli.run_cli(["-f", "json"] + names, d)
         dec = cli.decode(res["stdout"], "json")
-        return dict(idx=job["idx"], seq=job["seq"], res=dict(res, stdout=res["stdout"][-2000:]), dec=dec)
+        # findings per POSITION of the sequence (two files may share a base name)
+        import re
+        per = {}
+        for f in dec["files"]:
+            m = re.search(r"/p(\d+)/", f["path"])
+            if m:
+                per.setdefault(int(m.group(1)), []).append(("verdict", f["status"], [tuple(x) for x in f["diags"]]))
+        for m in re.finditer(r"^p(\d+)/[^\n]*: Error!\n\t", cli.ANSI.sub("", res["stdout"]), re.M):
+            per.setdefault(int(m.group(1)), []).append(("fatal", "Error", []))
+        return dict(idx=job["idx"], seq=job["seq"], res=dict(res, stdout=res["stdout"][-2000:]), dec=dec,
+                    per={str(k): v for k, v in per.items()})
     finally:
         cli.cleanup(d)
 
@@ -63,7 +77,7 @@ def _work_library(job):
             import observe
             base_limit = sys.getrecursionlimit()
             for n in job["seq"]:
-                o = observe.run_file(C06_FILES[n](), n)
+                o = observe.run_file(C06_FILES[n](), n.split("@")[-1])
                 out.append(dict(name=n, status=o["status"], fatal=bool(o["fatal"]), exc=o["exc"],
                                 diags=[tuple(x) for x in o["diags"]], reclimit=sys.getrecursionlimit() - base_limit))
         finally:
@@ -155,19 +169,12 @@ def run_c06(pid, tier):
         if w["res"]["exc"]:
             bad = f"internal exception {w['res']['exc']}"
         else:
-            # per distinct file name: the multiset of its verdict records and diagnostics, k occurrences = k x solo
-            for name in set(w["seq"]):
-                k = w["seq"].count(name)
-                s = solo[name]
-                srecs = [x for x in s["dec"]["records"] if x[1] == name]
-                sfiles = [f for f in s["dec"]["files"] if f["name"] == name]
-                recs = [x for x in w["dec"]["records"] if x[1] == name]
-                fl = [f for f in w["dec"]["files"] if f["name"] == name]
-                if sorted(recs) != sorted(srecs * k):
-                    bad = f"{name}: verdict records {recs} differ from {k} x solo {srecs}"
-                    break
-                if sorted(json.dumps(f["diags"]) for f in fl) != sorted([json.dumps(f["diags"]) for f in sfiles] * k):
-                    bad = f"{name}: diagnostics differ from its solo run"
+            # position by position: exactly the findings of the solo run of that file
+            for j, name in enumerate(w["seq"]):
+                got = w["per"].get(str(j), [])
+                want = solo[name]["per"].get("0", [])
+                if json.dumps(got, sort_keys=True) != json.dumps(want, sort_keys=True):
+                    bad = f"position {j} ({name}): {got[:2]} differs from its solo run {want[:2]}"
                     break
         if bad:
             R.violation(dict(kind="history_cli", sequence=w["seq"], problem=bad, stdout_tail=w["res"]["stdout"][-1200:],
